@@ -96,6 +96,7 @@ STARTS = {
 ENDS = {"none": "", "partial": "-{end_hour}{end_minute}{end_second}",
         "full": "-{end_year}{end_month}{end_day}{end_hour}{end_minute}{end_second}"}
 SATS = ["a", "bb", "x9"]
+MODES = ["m1", "zz"]
 BASE = datetime(2017, 12, 30)
 
 
@@ -154,6 +155,8 @@ def gen_template(tape):
     if t["start"] == "full_m" and t["end"] != "none":
         t["end"] = "none"          # minute resolution names carry no end here
     t["sat_in_name"] = "sat" not in ph and tape.flag("sat_in_name", 1, 3)
+    # a second user placeholder (only together with the first one)
+    t["mode_in_name"] = ("sat" in ph or t["sat_in_name"]) and tape.flag("mode_in_name", 1, 3)
     t["time_coverage"] = None
     if t["end"] == "none":
         t["time_coverage"] = tape.pick([None, 60, 3600, 86400 - 1], "tcov")
@@ -165,6 +168,8 @@ def template_string(t, root):
     name = STARTS[t["start"]] + ENDS[t["end"]]
     if t["sat_in_name"]:
         name += "_{sat}"
+    if t.get("mode_in_name"):
+        name += "_{mode}"
     name += ".dat"
     return "/".join([root] + chunks + [name])
 
@@ -216,6 +221,7 @@ def gen_files(tape, t, n):
         else:
             t0 = gen_time(tape, t, "f")
         sat = tape.pick(SATS, "sat") if uses_sat(t) else None
+        mode = tape.pick(MODES, "mode") if t.get("mode_in_name") else None
         if t["end"] == "none":
             t1 = t0
         else:
@@ -227,11 +233,11 @@ def gen_files(tape, t, n):
             t1 = t0 + timedelta(seconds=tape.pick(durs, "dur"))
             if t["start"] == "full_ms" and t["end"] != "none":
                 pass
-        key = (t0, t1 if t["end"] != "none" else None, sat)
+        key = (t0, t1 if t["end"] != "none" else None, sat, mode)
         if key in seen:
             continue
         seen.add(key)
-        files.append({"t0": t0, "t1": t1, "sat": sat})
+        files.append({"t0": t0, "t1": t1, "sat": sat, "mode": mode})
     return files
 
 
@@ -252,6 +258,8 @@ def precondition_ok(t, f, tcov):
 
 def path_of(t, f, root):
     user = {"sat": f["sat"]} if f["sat"] is not None else {}
+    if f.get("mode") is not None:
+        user["mode"] = f["mode"]
     p = naming.fmt(template_string(t, root), f["t0"], f["t1"], **user)
     return p.replace("/*/", "/wild/")
 
